@@ -12,14 +12,31 @@
                            terms written, at the lag / lead written), in which order they run (symbol order), and what one
                            pass does with them (frame, accesses, Gauss-Seidel, locality) — for every arithmetic.
    Part C                  refutation witnesses: the genuine defects of the current code the model mirrors.
-   Tie to the code: K_parse / K_text / K_pyast / K_code / K_eval of harness/props/C01.py.
-   Trusted, only observed through K_pyast / K_eval: CPython's reading and evaluation of the generated code text (the
-   model reads the SCRIPT's tokens with Python's precedences; that CPython reads the CODE text the same way is checked
-   case by case against its `ast`), NumPy float64 arithmetic = the kernel's binary64, libm exp / log / ** (oracle table). *)
+   Tie to the code: K_parse / K_text / K_pyast / K_tie / K_code / K_eval of harness/props/C01.py.
+   Trusted, only observed through K_pyast / K_eval: CPython's reading and evaluation of the generated code text.  The model
+   reads the SCRIPT's tokens with Python's precedences (C01_print_parse: for every tree, its minimally parenthesised print
+   is read back as that tree) and accepts a script only when every statement is read back identically from its CODE text by
+   the model's own code lexer (C01_accepted_script_is_read_back_from_its_code; C01_code_statement_tie: every statement
+   whose items are `tight`, a local decidable condition, is — the token-wise rendering provably preserves it); that CPython reads the code text as that
+   lexer + parser do is checked case by case against its `ast`.  NumPy float64 arithmetic = the kernel's binary64, libm
+   exp / log / ** (oracle table).
+   Reading guide: theorems whose statement merely unfolds a definition of the model (C01_template_is_normalised_items,
+   C01_format_fills_positionally, the `*_instance` / `*_refuted` witnesses, the fuel lemmas) establish no clause of the
+   property by themselves; the clauses are carried by  C01_generated_code_is_rendered_statement /
+   C01_endogenous_symbols_carry_the_rendered_statement (what the text is),  C01_scan_render and Part A2 (how it is lexed),
+   C01_reads_exactly_the_written_terms, C01_print_parse (what a statement denotes),
+   C01_statements_in_symbol_order, C01_pass_* , C01_feasible_period_reads_at_written_offsets (what a pass does).
+   Scope limits, stated once: (a) Part B is all-or-nothing per script — one statement outside the arithmetic / conditional
+   subset puts the whole script outside program_of_script (no per-statement opaque steps: Eval.stmt has none, and a frame
+   claim for an unknown statement would be an assumption, not a theorem); K_text / K_parse / K_code still cover such scripts
+   statement by statement.  (b) `aligned` (no term match spanning the first `=`) is a guard of the text-level theorem only;
+   its failure (`Y[a=b] = X`, C01_match_spanning_equals_refuted) makes parse_equation fail or produce symbols no model
+   evaluates, and is not recorded as a finding of C01.  (c) in the well-formed token lists of Part A2 the comparisons
+   `<` / `<=` are the token SLt, whose side condition is that no <error> term starts there (C01_lex_less_than). *)
 From Coq Require Import String Ascii List Bool Arith ZArith PrimFloat.
 Import ListNotations.
 Require Import Generated PyBase PyStr Lex Format Symbols Split Merge ParseEq ParseModel Solver SolverF Eval EvalFacts EvalF.
-Require Import CodeGen CodeGenF CodeGenFacts CodeGenFacts2 CodeGenFacts3 CodeGenFacts4 CodeGenFacts5 CodeGenFacts6 CodeGenFacts7 CodeGenFacts8 CodeGenFacts9 CodeGenFacts10 CodeGenFacts11 CodeGenFacts12 CodeGenFacts13 LexFacts CodeGenLexFacts CodeGenSrc CodeGenSrcFacts CodeGenSrcFacts2 CodeGenBlock CodeGenBlockFacts CodeGenExamples.
+Require Import CodeGen CodeGenF CodeGenFacts CodeGenFacts2 CodeGenFacts3 CodeGenFacts4 CodeGenFacts5 CodeGenFacts6 CodeGenFacts7 CodeGenFacts8 CodeGenFacts9 CodeGenFacts10 CodeGenFacts11 CodeGenFacts12 CodeGenFacts13 CodeGenFacts14 CodeGenFacts15 LexFacts CodeGenLexFacts CodeGenSrc CodeGenSrcFacts CodeGenSrcFacts2 CodeGenBlock CodeGenBlockFacts CodeGenExamples.
 Open Scope string_scope.
 
 (* ======================= Part A: the generated text ======================= *)
@@ -339,6 +356,25 @@ Theorem C01_wf_instance_keywords_verbatim :
   code_text (render tsB) = Some "self._C[t] = (self._a[t]*self._X[t-1]) if not self._is_open[t] > 0 and self._Pin[t] else np.pi * np.sqrt(self._W[t+1])".
 Proof. exact tsB_wf. Qed.
 Print Assumptions C01_wf_instance_keywords_verbatim.
+(* `<` is the one operator character at which a term CAN start (an <error> term): where term_re's  < NAME >  alternative
+   does not match, nothing starts there and the character is copied — the comparisons `<` and `<=` of well-formed token
+   lists (SLt; side condition lt_free, decided by the regex model itself) … *)
+Theorem C01_lex_less_than pw r :
+  try_bracketed "<" ">" KError (String "<" r) = None -> match_here pw (String "<" r) = None.
+Proof. exact (match_here_lt pw r). Qed.
+Print Assumptions C01_lex_less_than.
+(* … an instance with both; and `A < X > 0`, which is NOT well-formed: term_re reads `< X >` as an error term, the code is
+   `self._A[t] self._X[t] 0` (a SyntaxError when compiled: fails loudly) *)
+Theorem C01_wf_instance_comparisons :
+  wf tsD = true /\ render tsD = "Y = A if A < X[-1] and {p}<=2 else 0" /\
+  code_text (render tsD) = Some "self._Y[t] = self._A[t] if self._A[t] < self._X[t-1] and self._p[t]<=2 else 0" /\
+  code_agrees (row_of ["Y"; "A"; "X"; "p"]) (render tsD) = true /\
+  lt_free " X[-1] and" = true /\ lt_free "=2 " = true /\ lt_free " X > 0" = false /\
+  wf [SVar "Y" None; SGap " = 1 "; SKw "if"; SGap " "; SVar "A" None; SGap " "; SLt ""; SGap " "; SVar "X" None; SGap " > 0 ";
+      SKw "else"; SGap " 2"] = false /\
+  code_text "Y = 1 if A < X > 0 else 2" = Some "self._Y[t] = 1 if self._A[t] self._X[t] 0 else 2".
+Proof. exact tsD_wf. Qed.
+Print Assumptions C01_wf_instance_comparisons.
 Theorem C01_wf_instance_code :
   code_text (render tsA) = Some "self._Yd[t+1] = self._alpha_1[t]*np.exp(self._is_open[t-12]) + min(self._Pin[t+2],1.5)/self._e[t] - self._not_X[t]**2 + 3*self._p[t-1] + (self._in_[t]-self._expo[t])".
 Proof. exact tsA_code. Qed.
@@ -563,6 +599,73 @@ Theorem C01_statements_in_symbol_order syms stmts names prog :
           (filter emits syms) prog.
 Proof. exact (program_order syms stmts names prog). Qed.
 Print Assumptions C01_statements_in_symbol_order.
+
+(* THE TIE BETWEEN THE CODE TEXT AND THE STATEMENT (review item 1).  Part A says what the code TEXT is; the theorems of
+   Part B speak about the statement read from the SCRIPT's tokens.  The link "reading the generated code text gives that
+   very statement" is decided per statement (code_agrees: lex_code — the code's own spelling self._NAME[t+K], np.exp, … —
+   followed by the same tree parser must return the identical statement), the decision is exact … *)
+Theorem C01_code_agrees_sound row eq s :
+  code_agrees row eq = true -> stmt_of_equation row eq = Some s ->
+  exists c, code_text eq = Some c /\ stmt_of_code row c = stmt_of_equation row eq.
+Proof. exact (code_agrees_sound row eq s). Qed.
+Print Assumptions C01_code_agrees_sound.
+Theorem C01_code_agrees_complete row eq c :
+  code_text eq = Some c -> stmt_of_code row c = stmt_of_equation row eq -> code_agrees row eq = true.
+Proof. exact (code_agrees_complete row eq c). Qed.
+Print Assumptions C01_code_agrees_complete.
+(* … and the model used by K_pyast / K_eval (program_of_script_checked; CodeGenF.fprogram_of_script) accepts a script only if
+   EVERY statement passes: an accepted script has the program of program_of_script — so every theorem below applies to it —
+   and each of its statements IS what is read back from the code text that Part A (and K_text) identify with Symbol.code.
+   Whatever token-wise rendering does to a statement (tokens fusing, a spelling changing meaning) it either preserves the
+   statement or puts the script outside the subset; K_tie reports every script that program_of_script accepts and this
+   rejects.  (The unconditional  code_text eq = Some c -> stmt_of_code row c = stmt_of_equation row eq  is FALSE as a statement
+   about token sequences — `not{X}` — ; C01_code_statement_tie below proves it under the local condition tight_statement.) *)
+Theorem C01_accepted_script_is_read_back_from_its_code script names prog :
+  program_of_script_checked script = Some (names, prog) ->
+  program_of_script script = Some (names, prog) /\
+  exists syms stmts,
+    parse_model_nocheck script = POk syms /\ split_M script = (stmts, None) /\ names = names_of syms /\
+    forall eq s, In eq stmts -> head_is "`" eq && last_is "`" eq = false ->
+      stmt_of_equation (row_of names) eq = Some s ->
+      exists c, code_text eq = Some c /\ stmt_of_code (row_of names) c = stmt_of_equation (row_of names) eq.
+Proof. exact (checked_program_tied script names prog). Qed.
+Print Assumptions C01_accepted_script_is_read_back_from_its_code.
+
+(* THE TIE AS A THEOREM, for EVERY statement text eq and every row map: if the normalised items of eq are `tight` — a
+   decidable, local condition (CodeGen.tight): every character outside the matches is no letter / underscore / newline and
+   does not continue a function name or keyword; every match is a series term with an integer index rendered
+   self._NAME[t+K], or a function / keyword of the subset rendered as that word, and does not directly follow a digit, a dot,
+   a function name or a keyword — then the generated code text is lexed (lex_code) into EXACTLY the token sequence
+   lex_items reads from the script, so reading the code gives the very statement the script denotes.  Token-wise rendering
+   preserves the statement; the statements where it does not (`not{X}` -> `notself._X[t]`, `2{p}` -> `2self._p[t]`) are
+   not tight (C01_tight_instances). *)
+Theorem C01_code_text_lexes_to_the_script_tokens eq c :
+  code_text eq = Some c -> tight_statement eq = true ->
+  lex_code (S (String.length c)) c = lex_items LNone (scan_items eq).
+Proof. exact (code_tokens_tie eq c). Qed.
+Print Assumptions C01_code_text_lexes_to_the_script_tokens.
+Theorem C01_code_statement_tie row eq c :
+  code_text eq = Some c -> tight_statement eq = true -> stmt_of_code row c = stmt_of_equation row eq.
+Proof. exact (code_statement_tie row eq c). Qed.
+Print Assumptions C01_code_statement_tie.
+Theorem C01_tight_statement_has_code eq : tight_statement eq = true -> exists c, code_text eq = Some c.
+Proof. exact (tight_has_code eq). Qed.
+Print Assumptions C01_tight_statement_has_code.
+(* the index text of the code is read back as the index: [t] / [t+K] / [t-K] for every integer *)
+Theorem C01_code_index_round_trip k rest : code_index (offset_text k ++ rest) = Some (k, rest).
+Proof. exact (code_index_offset k rest). Qed.
+Print Assumptions C01_code_index_round_trip.
+Theorem C01_tight_instances :
+  tight_statement "Yd[1] = { alpha_1 }*exp (  is_open[-12] ) + min( Pin[ +2 ],1.5 )/< e > - not_X**2 + 3*{p}[-1]" = true /\
+  tight_statement "Y = A if A < X[-1] and {p}<=2 else 0" = true /\
+  tight_statement "Y = X if not C >= 1 and (W < X or X == 2) else W if C != 0 else -X" = true /\
+  tight_statement "Y = 1 if not {X} > 0 else 2" = true /\
+  tight_statement "Y = 1 if not{X} > 0 else 2" = false /\
+  tight_statement "Y = 2{p}" = false /\ tight_statement "Y = 2X" = false /\ tight_statement "Y = 1e5" = false /\
+  tight_statement "Y = X if.5 else 1" = false /\
+  tight_statement "Y = sqrt(X)" = false /\ tight_statement "Y = X['2000']" = false /\ tight_statement "Y = `np.pi` * X" = false.
+Proof. exact tight_instances. Qed.
+Print Assumptions C01_tight_instances.
 
 Section C01_pass.
   Variable num : Type.
